@@ -344,10 +344,24 @@ def setGate (st : State) (id : String) (shut : Bool) : State :=
         | none => s
       pumpAll s)
 
+/-- flow control lets exactly one held response through; the gate stays shut, so the sender
+blocks again on the next response it dequeues -/
+def stepGate (st : State) (id : String) : State :=
+  updateSub st id (fun s =>
+    if s.gateShut then
+      match s.blocked with
+      | some r =>
+        let s := { s with blocked := none, out := s.out ++ [(r, s.gatedSinceDrain)] }
+        if isTargetDelete r && s.req.target != "*" then { s with alive := false, status := some .ok }
+        else pumpAll s
+      | none => s
+    else s)
+
 /-- the send timeout elapses: every subscriber with a blocked send ends with an error -/
 def expire (st : State) : State :=
   { st with subs := st.subs.map (fun s =>
-      if s.alive ∧ s.blocked.isSome then { s with alive := false, status := some .unknown } else s) }
+      if s.alive ∧ s.blocked.isSome then { s with alive := false, status := some .unknown, blocked := none }
+      else s) }
 
 end Sub
 end Gnmi
